@@ -83,6 +83,11 @@ impl Rng {
         }
         v
     }
+    /// random bytes of random length lo..=hi
+    pub fn rbytes(&mut self, lo: usize, hi: usize) -> Vec<u8> {
+        let n = self.usize_in(lo, hi);
+        self.bytes(n)
+    }
     /// weighted choice: returns index into weights
     pub fn weighted(&mut self, weights: &[u32]) -> usize {
         let total: u64 = weights.iter().map(|w| *w as u64).sum();
